@@ -199,7 +199,12 @@ class PhasePredictor(QTable):
             pol, _, dx = polynomial_at(x)
             return pol.deriv()(dx)
 
-        check = [(self(a) < phase) & (phase < self(b)) for a, b in self.intervals]
+        # The ends of an interval belong to it (to the accuracy of a prediction)
+        tol = 1e-8 * u.cycle
+        check = [
+            (self(a) - tol <= phase) & (phase <= self(b) + tol)
+            for a, b in self.intervals
+        ]
 
         if not np.all(functools.reduce(operator.or_, check)):
             raise ValueError("Given phase seems to be outside predictor range!")
@@ -208,11 +213,11 @@ class PhasePredictor(QTable):
 
         if guess is None:
             ph_end = (self(self["tmid"] + self["span"] / 2) - phase).value
-            index = np.searchsorted(ph_end, 0)
+            index = min(np.searchsorted(ph_end, 0), len(self) - 1)
             guess = self["tmid"][index]
 
         x = scipy.optimize.root_scalar(func, x0=0, fprime=fprime)
-        return guess + x.root * u.s
+        return min(max(guess + x.root * u.s, lo), hi)
 
     @classmethod
     def from_polyco(cls, path):
